@@ -176,7 +176,7 @@ func check(args []string) int {
 	var reports []*engine.Report
 	var totalStates, totalTrans int64
 	exhaustive := true
-	violations := 0
+	violations, nondet := 0, 0
 	knownHits := map[string]string{}
 	var vioLines []string
 	vacuous := []string{}
@@ -216,8 +216,11 @@ func check(args []string) int {
 				ok2, h2 = reproduce(sc, fr)
 			}
 			if !ok1 || !ok2 || h1 != h2 {
+				// not reported as a violation (nothing that fails only sometimes is believed); the run ends with exit 2 unless
+				// another failure of this run reproduces
 				fmt.Printf("HARNESS-NONDETERMINISM: failure %s/%s did not reproduce identically on replay (%v %v)\n", fr.F.Oracle, fr.F.Cause, ok1, ok2)
-				return 2
+				nondet++
+				continue
 			}
 			name := fmt.Sprintf("%s-%s-%s-%d.json", id, sc.Name, sanitize(fr.F.Oracle+"-"+fr.F.Cause), fi)
 			path, err := engine.WriteReplay(filepath.Join(outDir(), "replays"), engine.ReplayFile{
@@ -265,6 +268,9 @@ func check(args []string) int {
 			fmt.Println(l)
 		}
 		return 1
+	}
+	if nondet > 0 {
+		return 2
 	}
 	if len(vacuous) > 0 {
 		fmt.Printf("VACUOUS: required coverage counters are zero: %s\n", strings.Join(vacuous, ", "))
